@@ -165,13 +165,13 @@ def path_of(particle):
     return tuple(reversed(out))
 
 
-def _warm_up(kernel, td, sigma, alpha, rng):
+def _warm_up(kernel, td, sigma, alpha, rng, other=2.9):
     """Library use across a concentration change: the same kernel object first runs a pass under a
     different alpha (filling every memo), then alpha is assigned in place; no cache is cleared."""
     import numpy as np
     from phyclone.smc.samplers import SMCSampler
 
-    td.prior.alpha = 2.9
+    td.prior.alpha = other
     kernel._rng = np.random.default_rng(5)
     for _ in range(3):
         SMCSampler(list(sigma), kernel, num_particles=4, resample_threshold=0.5).sample()
@@ -206,7 +206,7 @@ def weights_case(item):
             S.clear_caches()
             kernel = _kernel(kname, rng, td, op, perm)
             if warm:
-                _warm_up(kernel, td, sigma, alpha, rng)
+                _warm_up(kernel, td, sigma, alpha, rng, other=(alpha + warm if isinstance(warm, float) else 2.9))
             sw = SMCSampler(list(sigma), kernel, num_particles=1, resample_threshold=0.0).sample()
             return path_of(sw.particles[0]), float(sw.unnormalized_log_weights[0])
 
@@ -232,7 +232,7 @@ def weights_case(item):
                 S.clear_caches()
                 kernel = _kernel(kname, rng, td, op, perm)
                 if warm:
-                    _warm_up(kernel, td, sigma, alpha, rng)
+                    _warm_up(kernel, td, sigma, alpha, rng, other=(alpha + warm if isinstance(warm, float) else 2.9))
                 sw = SMCSampler(list(sigma), kernel, num_particles=2, resample_threshold=0.0).sample()
                 u = sw.unnormalized_log_weights
                 return path_of(sw.particles[0]), float(u[0]), path_of(sw.particles[1]), float(u[1])
@@ -259,7 +259,7 @@ def weights_case(item):
                 S.clear_caches()
                 kernel = _kernel(kname, rng, td, op, perm)
                 if warm:
-                    _warm_up(kernel, td, sigma, alpha, rng)
+                    _warm_up(kernel, td, sigma, alpha, rng, other=(alpha + warm if isinstance(warm, float) else 2.9))
                 sm = ConditionalSMCSampler(oracle.build(x, data), list(sigma), kernel, num_particles=2, resample_threshold=0.0)
                 sw = sm.sample()
                 u = sw.unnormalized_log_weights
@@ -315,6 +315,8 @@ def items(tier):
                         wts.append((k, op, perm, 1.3, n, order))
                         if perm and order == tuple(range(n)) and n >= 2:
                             wts.append((k, op, perm, 1.3, n, order, True))
+                            # ... and under an alpha that differs in the fifth decimal only (what one concentration update can do)
+                            wts.append((k, op, perm, 1.3, n, order, 3e-5))
     return prop, wts
 
 
